@@ -18,7 +18,11 @@
 (*                committed filter header of block b, and equals the true  *)
 (*                filter of b), G (returned anything else).                *)
 (*   obs.cache[b+1], obs.db[b+1]   0 absent, 1 the true filter of block b  *)
-(*                under b's key, G something else under b's key.           *)
+(*                under b's key, G something else under b's key; db only:  *)
+(*                2 a placeholder (empty value = "block known, no filter   *)
+(*                stored"), which may be present from the start but is     *)
+(*                never a filter: it must never appear and never be        *)
+(*                returned.                                                *)
 (*   obs.wq[b+1]  number of items for block b handed to the batch writer   *)
 (*                and not yet written (G if an item is not b's true        *)
 (*                filter).                                                 *)
@@ -91,7 +95,7 @@ Viol(a, o, act, a2, o2) ==
                  ELSE {b + 1 : b \in a2.ver}
       newC    == {i \in 1..n : o2.cache[i] # 0 /\ o.cache[i] = 0}
       newW    == {i \in 1..n : o2.wq[i] # o.wq[i] /\ (o2.wq[i] > o.wq[i] \/ o2.wq[i] < 0)}
-      newD    == {i \in 1..n : o2.db[i] # 0 /\ o.db[i] = 0}
+      newD    == {i \in 1..n : o2.db[i] \notin {0, 2} /\ o.db[i] \in {0, 2}}   \* a filter where there was none
       queued  == {i \in 1..n : o.wq[i] > 0}
   IN
   \* "Responses that are malformed, for another block or filter type,
@@ -104,9 +108,10 @@ Viol(a, o, act, a2, o2) ==
   \* cache and database hold nothing but true filters of blocks whose filter
   \* header is committed
   (IF \/ \E i \in 1..n : \/ o2.cache[i] \notin {0, 1}
-                         \/ o2.db[i] \notin {0, 1}
+                         \/ o2.db[i] \notin {0, 1, 2}
+                         \/ (o2.db[i] = 2 /\ o.db[i] # 2)
                          \/ o2.wq[i] < 0
-                         \/ (i - 1 > o2.ftip /\ (o2.cache[i] # 0 \/ o2.db[i] # 0 \/ o2.wq[i] # 0))
+                         \/ (i - 1 > o2.ftip /\ (o2.cache[i] # 0 \/ o2.db[i] \in {1, G} \/ o2.wq[i] # 0))
       \/ o2.cx # 0 \/ o2.dx # 0 \/ o2.wx # 0
    THEN {"ContentsAreTrueFilters"} ELSE {})
   \cup
